@@ -55,6 +55,22 @@ fn enum_laws(f: Fmt, nd: &ND) -> Option<String> {
             (None, true) => return Some(format!("try_into_{} failed on a {}", name, kind)),
         }
     }
+    // the std conversion traits of the enum model (TryFrom<Narsese> / TryInto) are the same accessors
+    {
+        use narsese::enum_narsese::{Sentence as ES, Task as EK, Term as ET};
+        let t1 = ET::try_from(v.clone()).map(|t| format!("T<{}>", canon_real(&t))).ok();
+        let s1 = ES::try_from(v.clone()).map(|s| canon_real_sentence(&s)).ok();
+        let k1 = EK::try_from(v.clone()).map(|k| canon_real_task(&k)).ok();
+        let k2: Option<String> = {
+            let r: Result<EK, _> = v.clone().try_into();
+            r.map(|k| canon_real_task(&k)).ok()
+        };
+        for (name, got, want) in [("Term::try_from", &t1, &as_term), ("Sentence::try_from", &s1, &as_sentence), ("Task::try_from", &k1, &as_task), ("TryInto<Task>", &k2, &as_task)] {
+            if got != want {
+                return Some(format!("{}(Narsese {}) = {:?} but the matching accessor gives {:?}", name, kind, got, want));
+            }
+        }
+    }
     // from_* wrappers
     match nd {
         ND::Term(t) => {
